@@ -1,0 +1,15 @@
+//go:build !verif
+
+// Package verifhook provides named instrumentation points for runtime
+// monitoring. Without the "verif" build tag every function is empty and the
+// call sites compile to nothing.
+package verifhook
+
+// Enabled reports whether the hooks are compiled in.
+const Enabled = false
+
+// Point marks a named point between two effects.
+func Point(name string) {}
+
+// PointD is Point with a detail string (only evaluate it under Enabled).
+func PointD(name, detail string) {}
